@@ -19,34 +19,73 @@ Proof.
   apply str_eqb_true in E. contradiction.
 Qed.
 
-Lemma ttr_nodup : forall e opt bs t r, fixoid e = true -> binders_checked bs t -> NoDup (map fst bs) ->
-  (forall k, In k (map fst bs) -> get r k = None) ->
-  ttr e opt bs t r r = Ok (option_map (fun r0 => r ++ r0) (brow opt bs t)).
+(* ---------- the row of a triple for a clause: the specification's spec_bind (first value kept for a repeated name) and the
+   planner's tripleToRow (last value kept) agree up to zone equivalence, repeated names included (after repair F25) *)
+Lemma set_equiv_existing : forall r r' k v w, row_equiv r r' -> get r' k = Some w -> cell_equiv v w = true ->
+  row_equiv (set r k v) r'.
 Proof.
-  intros e opt bs t. induction bs as [|[k x] bs IH]; intros r Hf Hbc Hnd Hfresh.
-  - cbn. rewrite app_nil_r. reflexivity.
-  - cbn [ttr brow]. rewrite (extract_xval e opt x t Hf (Hbc k x (or_introl eq_refl))).
-    destruct (xval opt x t) as [v|]; [|reflexivity].
-    rewrite (Hfresh k (or_introl eq_refl)). rewrite set_fresh by (apply Hfresh; left; reflexivity).
-    cbn in Hnd. inversion Hnd as [|? ? Hnotin Hnd']; subst.
-    rewrite IH; try assumption.
-    + destruct (brow opt bs t); cbn; [rewrite <- app_assoc; reflexivity|reflexivity].
-    + eapply binders_checked_tail; eauto.
-    + intros k' Hk'. apply get_snoc_other; [apply Hfresh; right; exact Hk'|]. intro; subst. contradiction.
+  intros r r' k v w H. induction H as [|[k1 v1] [k2 v2] r r' [A B] H IH]; intros G C; cbn in *; [discriminate|].
+  subst k2. destruct (str_eqb k k1) eqn:E.
+  - inversion G; subst. constructor; [split; auto|exact H].
+  - constructor; [split; auto|apply IH; assumption].
 Qed.
 
-Lemma spec_bind_nodup : forall opt bs t r, NoDup (map fst bs) ->
-  (forall k, In k (map fst bs) -> get r k = None) ->
-  spec_bind opt bs t r = option_map (fun r0 => r ++ r0) (brow opt bs t).
+Lemma opt_rel_trans_row : forall a b c, opt_rel row_equiv a b -> opt_rel row_equiv b c -> opt_rel row_equiv a c.
 Proof.
-  intros opt. induction bs as [|[k x] bs IH]; intros t r Hnd Hfresh.
-  - cbn. rewrite app_nil_r. reflexivity.
-  - cbn [spec_bind brow]. fold (xval opt x t). destruct (xval opt x t) as [v|]; [|reflexivity].
-    rewrite (Hfresh k (or_introl eq_refl)). rewrite set_fresh by (apply Hfresh; left; reflexivity).
-    cbn in Hnd. inversion Hnd as [|? ? Hnotin Hnd']; subst.
-    rewrite IH; try assumption.
-    + destruct (brow opt bs t); cbn; [rewrite <- app_assoc; reflexivity|reflexivity].
-    + intros k' Hk'. apply get_snoc_other; [apply Hfresh; right; exact Hk'|]. intro; subst. contradiction.
+  intros a b c H1 H2. inversion H1; subst; inversion H2; subst; constructor. eapply row_equiv_trans; eauto.
+Qed.
+
+Lemma spec_bind_equiv : forall opt bs t t' r r', tequiv t t' -> row_equiv r r' ->
+  opt_rel row_equiv (spec_bind opt bs t r) (spec_bind opt bs t' r').
+Proof.
+  intros opt bs t t' r r' Ht. revert r r'. induction bs as [|[k x] bs IH]; intros r r' Hr; cbn [spec_bind]; [constructor; exact Hr|].
+  fold (xval opt x t). fold (xval opt x t').
+  destruct (xval_equiv opt x t t' Ht) as [|v v' Hv]; [constructor|].
+  destruct (get_equiv r r' k Hr) as [|v0 v0' Hv0].
+  - apply IH. apply set_equiv; assumption.
+  - rewrite (cell_equiv_cong v0 v0' v v' Hv0 Hv). destruct (cell_equiv v0' v'); [apply IH; exact Hr|constructor].
+Qed.
+
+Lemma ttr_spec_bind : forall e opt bs t r r', fixoid e = true -> fixzone e = true -> binders_checked bs t -> row_equiv r r' ->
+  exists o, ttr e opt bs t r r = Ok o /\ opt_rel row_equiv o (spec_bind opt bs t r').
+Proof.
+  intros e opt bs t. induction bs as [|[k x] bs IH]; intros r r' Hf Hz Hbc Hr.
+  - exists (Some r). split; [reflexivity|constructor; exact Hr].
+  - pose proof (binders_checked_tail _ _ _ Hbc) as Hbc'.
+    cbn [ttr spec_bind]. rewrite (extract_xval e opt x t Hf (Hbc k x (or_introl eq_refl))). fold (xval opt x t).
+    destruct (xval opt x t) as [v|]; [|exists None; split; [reflexivity|constructor]].
+    pose proof (get_equiv r r' k Hr) as Ge.
+    destruct (get r k) as [v0|] eqn:G1; destruct (get r' k) as [v0'|] eqn:G2; inversion Ge as [|? ? Hv0]; subst.
+    + unfold same_value. rewrite Hz. rewrite (cell_equiv_cong v0 v0' v v Hv0 (cell_equiv_refl v)).
+      destruct (cell_equiv v0' v) eqn:C; [|exists None; split; [reflexivity|constructor]].
+      apply IH; try assumption.
+      eapply set_equiv_existing; [exact Hr|exact G2|]. rewrite cell_equiv_sym. exact C.
+    + apply IH; try assumption. apply set_equiv; [exact Hr|apply cell_equiv_refl].
+Qed.
+
+(* cells, domain and monotonicity of spec_bind *)
+Lemma spec_bind_facts : forall opt bs t r0 r, spec_bind opt bs t r0 = Some r ->
+  (forall k x, In (k, x) bs -> exists v w, xval opt x t = Some v /\ get r k = Some w /\ cell_equiv w v = true) /\
+  sub_row r0 r /\
+  (forall k, get r k <> None -> get r0 k <> None \/ In k (map fst bs)).
+Proof.
+  intros opt bs t. induction bs as [|[k x] bs IH]; intros r0 r H.
+  - cbn in H. inversion H; subst. split; [intros k x []|]. split; [intros k v G; exact G|]. intros k G. left. exact G.
+  - cbn [spec_bind] in H. fold (xval opt x t) in H. destruct (xval opt x t) as [v|] eqn:Xv; [|discriminate].
+    destruct (get r0 k) as [v0|] eqn:G.
+    + destruct (cell_equiv v0 v) eqn:Ce; [|discriminate].
+      destruct (IH _ _ H) as [Hb [Hs Hd]]. split; [|split].
+      * intros k0 x0 [E|Hin]; [|apply Hb; exact Hin]. inversion E; subst.
+        exists v, v0. split; [exact Xv|]. split; [apply Hs; exact G|exact Ce].
+      * exact Hs.
+      * intros k0 G0. destruct (Hd k0 G0) as [X|X]; [left; exact X|right; right; exact X].
+    + destruct (IH _ _ H) as [Hb [Hs Hd]]. split; [|split].
+      * intros k0 x0 [E|Hin]; [|apply Hb; exact Hin]. inversion E; subst.
+        exists v, v. split; [exact Xv|]. split; [apply Hs; apply get_set_same|apply cell_equiv_refl].
+      * intros k0 v1 G0. apply Hs. destruct (str_eq_dec k0 k) as [->|Hne]; [congruence|].
+        rewrite get_set_other by exact Hne. exact G0.
+      * intros k0 G0. destruct (Hd k0 G0) as [X|X]; [|right; right; exact X].
+        destruct (str_eq_dec k0 k) as [->|Hne]; [right; left; reflexivity|]. rewrite get_set_other in X by exact Hne. left. exact X.
 Qed.
 
 Lemma nodup_str_NoDup : forall l, nodup_str l = true -> NoDup l.
